@@ -517,6 +517,13 @@ pub fn cfgs(tier: &str) -> Vec<(ArpCfg, Bounds)> {
             c.lossy = 2;
         });
     }
+    // the burst-loss and staggered families are many long executions (ten retry rounds each):
+    // two scheduling deviations in both tiers, the third is spent on the short configurations
+    for (c, b) in v.iter_mut() {
+        if c.burst.is_some() || c.stagger.is_some() {
+            *b = Bounds::new(c.lossy + 2).cap(KIND_FRAME, c.lossy).sched(2).wall(wall);
+        }
+    }
     v
 }
 
